@@ -242,32 +242,25 @@ bool JsonPatchMoveOp::Apply(JsonValue **value) const {
     return false;
   }
 
-  JsonValue *src_parent = GetParent(*value, m_from);
-  if (!src_parent) {
+  if (*value == NULL) {
     return false;
   }
 
-  const string last_token = LastToken(m_from);
-  JsonPointer child_ptr("/" + last_token);
-  JsonValue *source = src_parent->LookupElement(child_ptr);
+  JsonValue *source = (*value)->LookupElement(m_from);
   if (!source) {
     return false;
   }
 
-  if (!AddOp(m_to, value, source)) {
+  // Section 4.4 of the RFC: a move is a remove of the 'from' location followed
+  // by an add of the removed value at the target location. Doing it in that
+  // order means the target is resolved in the document without the source,
+  // which matters when both are in the same array.
+  std::auto_ptr<JsonValue> moved_value(source->Clone());
+  RemoveAction action;
+  if (!action.TakeActionOn(*value, m_from)) {
     return false;
   }
-
-  if (m_to.IsPrefixOf(m_from)) {
-    // At this point the original has already been destroyed during the Add
-    return true;
-  }
-
-  RemoveAction action;
-  if (!action.TakeActionOn(src_parent, child_ptr)) {
-    OLA_WARN << "Remove-after-move returned false!";
-  }
-  return true;
+  return AddOp(m_to, value, moved_value.get());
 }
 
 bool JsonPatchCopyOp::Apply(JsonValue **value) const {
@@ -283,14 +276,7 @@ bool JsonPatchCopyOp::Apply(JsonValue **value) const {
     return false;
   }
 
-  JsonValue *src_parent = GetParent(*value, m_from);
-  if (!src_parent) {
-    return false;
-  }
-
-  const string last_token = LastToken(m_from);
-  JsonPointer child_ptr("/" + last_token);
-  JsonValue *source = src_parent->LookupElement(child_ptr);
+  JsonValue *source = (*value)->LookupElement(m_from);
   if (!source) {
     return false;
   }
